@@ -360,8 +360,9 @@ class Registry:
             arg = py.__forward_arg__
             if arg.startswith("N") and arg[1:].isdigit():
                 return ("ref", int(arg[1:]), "fwd")
+            short = arg.rsplit(".", 1)[-1]
             for key, i in self.leaves.items():
-                if getattr(self.leaf_py[i], "__name__", None) == arg:
+                if getattr(self.leaf_py[i], "__name__", getattr(self.leaf_py[i], "_name", None)) in (arg, short):
                     return ("lref", key)
             for cand, d in self.rev:
                 if d[0] in ("newtype", "alias", "aliasstr") and arg == {"newtype": "NT", "alias": "AL", "aliasstr": "AS"}[d[0]] + str(d[1]):
